@@ -1,7 +1,8 @@
 CONSTANTS Fams = {"un", "untile", "fil", "filtile", "bin", "bintile"}
-          MaxUn = 4
+          MaxUn = 3
           MaxFil = 3
           MaxBin = 2
+          TileP = 2
           TileQ = 1
           TileM = 2
           Mutant = "none"
